@@ -737,6 +737,54 @@ func (c *Ctx) boundLeaves(v ssa.Value) []leaf {
 					return
 				}
 			}
+			// a read helper of the repo (readFromTarget(conn, buf) (n, addr, …)): its result is, on every return, the byte
+			// count of a read into one of its parameters — the count of a read into the argument given here
+			if call, ok := x.Tuple.(*ssa.Call); ok {
+				if h := call.Call.StaticCallee(); h != nil && p.InRepo(h) && len(h.Blocks) > 0 {
+					bufIdx, okH, nret := -1, true, 0
+					for _, r := range eng.Returns(h) {
+						if r.Block().Comment == "recover" || x.Index >= len(r.Results) {
+							continue
+						}
+						nret++
+						rv := r.Results[x.Index]
+						if sv := p.ReachingStore(rv, r); sv != nil {
+							rv = sv
+						}
+						ex, isEx := p.Resolve(rv).(*ssa.Extract)
+						if !isEx || ex.Index != 0 {
+							okH = false
+							continue
+						}
+						rc, isC := ex.Tuple.(*ssa.Call)
+						if !isC {
+							okH = false
+							continue
+						}
+						if m := eng.MethodName(&rc.Call); m != "ReadFrom" && m != "Read" && m != "ReadFromUDP" {
+							okH = false
+							continue
+						}
+						pa, isP := p.Resolve(eng.Arg(&rc.Call, 0)).(*ssa.Parameter)
+						if !isP {
+							okH = false
+							continue
+						}
+						for i, q := range h.Params {
+							if q == pa {
+								if bufIdx >= 0 && bufIdx != i {
+									okH = false
+								}
+								bufIdx = i
+							}
+						}
+					}
+					if okH && nret > 0 && bufIdx >= 0 && bufIdx < len(call.Call.Args) {
+						out = append(out, leaf{v, "readn", call.Call.Args[bufIdx]})
+						return
+					}
+				}
+			}
 			out = append(out, leaf{v, "other", nil})
 		case *ssa.UnOp:
 			if x.Op == token.MUL {
